@@ -302,11 +302,8 @@ func (s *Server) acceptAndRegister(ctx context.Context, l *uacp.Listener) {
 		case <-ctx.Done():
 			return
 		default:
-			c, err := l.Accept(ctx)
+			c, err := l.AcceptTCP()
 			if err != nil {
-				// Accept also performs the handshake with the new client, so most
-				// errors (a client that resets the connection or sends garbage
-				// instead of a Hello) concern that one client only.
 				// Only a closed listener ends the loop.
 				if errors.Is(err, net.ErrClosed) {
 					if s.cfg.logger != nil {
@@ -320,12 +317,32 @@ func (s *Server) acceptAndRegister(ctx context.Context, l *uacp.Listener) {
 				continue
 			}
 
-			go s.cb.RegisterConn(ctx, c, s.cfg.certificate, s.cfg.privateKey)
-			if s.cfg.logger != nil {
-				s.cfg.logger.Info("registered connection: %s", c.RemoteAddr())
-			}
+			go s.serveConn(ctx, l, c)
 		}
 	}
+}
+
+// handshakeTimeout is the time a new client has to complete the Hello / Acknowledge exchange.
+const handshakeTimeout = 10 * time.Second
+
+// serveConn performs the handshake with a new client and then serves the connection.
+//
+// The handshake runs here and not in the accept loop, so that a client which
+// is slow to send its Hello message does not keep other clients from connecting.
+func (s *Server) serveConn(ctx context.Context, l *uacp.Listener, c *uacp.Conn) {
+	c.SetDeadline(time.Now().Add(handshakeTimeout))
+	if err := c.ServerHandshake(l.Endpoint()); err != nil {
+		if s.cfg.logger != nil {
+			s.cfg.logger.Error("handshake with %s failed: %s", c.RemoteAddr(), err)
+		}
+		c.Close()
+		return
+	}
+	c.SetDeadline(time.Time{})
+	if s.cfg.logger != nil {
+		s.cfg.logger.Info("registered connection: %s", c.RemoteAddr())
+	}
+	s.cb.RegisterConn(ctx, c, s.cfg.certificate, s.cfg.privateKey)
 }
 
 // monitorConnections reads messages off the secure channel connection and
